@@ -211,7 +211,13 @@ def sim_scenario(cfg):
         m.d.b += rb.eq(ca ^ rp.data)
         m.d.comb += [y.eq(ca + rb), wp.addr.eq(ca[:2]), wp.data.eq(ca ^ 5), wp.en.eq(inp[0]), rp.addr.eq(rb[:2])]
         pa = Signal(3, name="pa")
+        pc = Signal(3, name="pc")
         state = {"log": None}
+
+        async def comb_proc(ctx):
+            # comb-replacement process (guide pattern): its reaction to the *initial* values differs from pc's init
+            async for ca_v, rb_v in ctx.changed(ca, rb):
+                ctx.set(pc, (ca_v ^ rb_v ^ 5) & 7)
 
         async def proc(ctx):
             async for clk_edge, rst, v in ctx.tick("a").sample(ca):
@@ -230,17 +236,18 @@ def sim_scenario(cfg):
                         await ctx.delay(Period(fs=op[1]))
                     elif op[0] == "memset":
                         ctx.set(mem.data[op[1]], op[2])
-                    log.append((tid, op[0], ctx.elapsed_time().femtoseconds, ctx.get(ca), ctx.get(rb), ctx.get(y), ctx.get(pa), ctx.get(rp.data),
+                    log.append((tid, op[0], ctx.elapsed_time().femtoseconds, ctx.get(ca), ctx.get(rb), ctx.get(y), ctx.get(pa), ctx.get(pc), ctx.get(rp.data),
                                 tuple(ctx.get(mem.data[i]) for i in range(4))))
             return tb
         sim = Simulator(m)
         sim.add_clock(Period(fs=cfg["pa"]), phase=Period(fs=cfg["fa"]), domain="a")
         sim.add_clock(Period(fs=cfg["pb"]), phase=Period(fs=cfg["fb"]), domain="b")
         sim.add_process(proc)
+        sim.add_process(comb_proc)
         for tid, script in enumerate(cfg["scripts"]):
             sim.add_testbench(make_tb(tid, script))
         eng = sim._engine
-        sigs = [inp, ca, rb, y, pa, rp.data, a.clk, b.clk]
+        sigs = [inp, ca, rb, y, pa, pc, rp.data, a.clk, b.clk]
         init_vals = [s.init for s in sigs]
         init_rows = [5, 6, 0, 0]
 
